@@ -99,6 +99,11 @@ func replayVisit(checker string) func(rc *runCtx, h *harness, v *interp.Violatio
 				params[name] = val
 			}
 		}
+		if os.Getenv("GSX_DEBUG_REALISE") != "" {
+			for i, s := range sources {
+				fmt.Fprintf(os.Stderr, "---- realisation %d\n%s\n", i, s)
+			}
+		}
 		results, err := runRealised(checker, params, sources, "")
 		if err != nil {
 			return false, err.Error()
